@@ -151,6 +151,46 @@ theorem target_width (ws : List (String × Nat)) (fuel : Nat) (c r : SConn) (t :
 section Modules
 open Hdl21.Pkg Hdl21.RoundTrip Hdl21.ExportWF
 
+/-- The exporter's module, for *any* signal list `ws` it writes that carries each of the module's signals once with a
+    positive width, the ports among them, and over which the instances' connections are in order. -/
+theorem export_core (ctx : PRef → Option (List (String × Nat))) (h : HModule) (ws : List (String × Nat))
+    (hnames : (ws.map (·.1)).Nodup) (hwid : ∀ s ∈ ws, 0 < s.2)
+    (hports : ∀ n ∈ h.ports.map (·.name), n ∈ ws.map (·.1)) (hpnd : (h.ports.map (·.name)).Nodup)
+    (hdir : (h.ports.all fun s => (s.dir.bind (lookupS · exportDirMap)).isSome) = true)
+    (hinames : (h.instances.map (·.name)).Nodup)
+    (hinst : (h.instances.all (instOK ctx ws)) = true) :
+    ∃ q ps, exportPorts h.ports = .ok q ∧ exportInsts h.instances = .ok ps ∧ ps.map (·.name) = h.instances.map (·.name) ∧
+      ∀ (pkg : Package) (earlier : List PModule), (∀ r, targetPorts pkg earlier r = ctx r) →
+        moduleProblems pkg earlier ⟨h.name, ws, q, ps⟩ = [] := by
+  obtain ⟨q, hq⟩ := exportPorts_ok h.ports hdir
+  obtain ⟨ps, e1, e2, e3⟩ := insts_export ctx ws h.instances hinst
+  refine ⟨q, ps, hq, e1, e2, ?_⟩
+  intro pkg earlier hctx
+  unfold moduleProblems
+  have hqn := exportPorts_names h.ports q hq
+  have h1 : dups (ws.map (·.1)) = [] := dups_nil_of_nodup _ hnames
+  have h2 : dups (q.map (·.1)) = [] := by rw [hqn]; exact dups_nil_of_nodup _ hpnd
+  have h3 : (q.map (·.1)).filter (fun n => (lookup n ws).isNone) = [] := by
+    rw [List.filter_eq_nil_iff]
+    intro n hn
+    rw [hqn] at hn
+    have := lookup_isSome_of_name_mem ws n (hports n hn)
+    cases hl : lookup n ws with
+    | none => simp [hl] at this
+    | some w => simp
+  have h4 : dups (ps.map (·.name)) = [] := by rw [e2]; exact dups_nil_of_nodup _ hinames
+  have h5 : ws.filter (fun s => s.2 = 0) = [] := by
+    rw [List.filter_eq_nil_iff]
+    intro s hs
+    have := hwid s hs
+    simp; omega
+  have h6 : ps.flatMap (instProblems pkg earlier ⟨h.name, ws, q, ps⟩) = [] := by
+    rw [List.flatMap_eq_nil_iff]
+    intro pi hpi
+    obtain ⟨ports, hc, hnd, hall, hcov⟩ := e3 pi hpi
+    exact inst_no_problems pkg earlier _ pi ports (by rw [hctx]; exact hc) hnd hall hcov
+  simp only [h1, h2, h3, h4, h5, h6, List.map_nil, List.append_nil]
+
 /-- **What the exporter writes for a well-formed elaborated module has none of the defects C06 lists**, in whatever package it
     ends up: signal, port and instance names unique, every port a declared signal, no zero-width signal, every instance of a
     defined target with each of its ports connected exactly once, to a target over declared signals, inside their widths, of the
@@ -161,46 +201,54 @@ theorem export_module_wf (ctx : PRef → Option (List (String × Nat))) (h : HMo
   unfold EWF at hw
   simp only [Bool.and_eq_true, decide_eq_true_eq] at hw
   obtain ⟨⟨⟨⟨hnames, hwid⟩, hdir⟩, hinames⟩, hinst⟩ := hw
-  obtain ⟨q, hq⟩ := exportPorts_ok h.ports hdir
-  obtain ⟨ps, e1, e2, e3⟩ := insts_export ctx (sigList h) h.instances hinst
-  refine ⟨⟨h.name, sigList h, q, ps⟩, by unfold RoundTrip.exportModule; rw [hq, e1]; rfl, rfl, e2, ?_⟩
-  intro pkg earlier hctx
-  unfold moduleProblems
   have hsn : (sigList h).map (·.1) = (h.signals ++ h.ports).map (·.name) := by
     unfold sigList; rw [List.map_map]; rfl
-  have hqn := exportPorts_names h.ports q hq
-  have h1 : dups ((sigList h).map (·.1)) = [] := by rw [hsn]; exact dups_nil_of_nodup _ hnames
   have hpnd : (h.ports.map (·.name)).Nodup := by
     rw [List.map_append] at hnames
     exact (List.nodup_append.mp hnames).2.1
-  have h2 : dups (q.map (·.1)) = [] := by rw [hqn]; exact dups_nil_of_nodup _ hpnd
-  have h3 : (q.map (·.1)).filter (fun n => (lookup n (sigList h)).isNone) = [] := by
-    rw [List.filter_eq_nil_iff]
-    intro n hn
-    rw [hqn] at hn
-    have : n ∈ (sigList h).map (·.1) := by
-      rw [hsn, List.map_append]; exact List.mem_append_right _ hn
-    have := lookup_isSome_of_name_mem (sigList h) n this
-    cases hl : lookup n (sigList h) with
-    | none => simp [hl] at this
-    | some w => simp
-  have h4 : dups (ps.map (·.name)) = [] := by rw [e2]; exact dups_nil_of_nodup _ hinames
-  have h5 : (sigList h).filter (fun s => s.2 = 0) = [] := by
-    rw [List.filter_eq_nil_iff]
-    intro s hs
-    unfold sigList at hs
-    obtain ⟨x, hx, rfl⟩ := List.mem_map.mp hs
-    rw [List.all_eq_true] at hwid
-    have := hwid x hx
-    simp only [decide_eq_true_eq] at this
-    simp; omega
-  have h6 : ps.flatMap (instProblems pkg earlier ⟨h.name, sigList h, q, ps⟩) = [] := by
-    rw [List.flatMap_eq_nil_iff]
-    intro pi hpi
-    obtain ⟨ports, hc, hnd, hall, hcov⟩ := e3 pi hpi
-    exact inst_no_problems pkg earlier _ pi ports (by rw [hctx]; exact hc) hnd hall hcov
-  simp only [h1, h2, h3, h4, h5, h6, List.map_nil, List.append_nil]
+  obtain ⟨q, ps, hq, e1, e2, hall⟩ := export_core ctx h (sigList h) (by rw [hsn]; exact hnames)
+    (by
+      intro s hs
+      unfold sigList at hs
+      obtain ⟨x, hx, rfl⟩ := List.mem_map.mp hs
+      rw [List.all_eq_true] at hwid
+      simpa using hwid x hx)
+    (by intro n hn; rw [hsn, List.map_append]; exact List.mem_append_right _ hn)
+    hpnd hdir hinames hinst
+  exact ⟨⟨h.name, sigList h, q, ps⟩, by unfold RoundTrip.exportModule; rw [hq, e1]; rfl, rfl, e2, hall⟩
 
+/-- **The same for the other layout.** An exporter that writes the ports' signals first and the internal ones after them
+    (`exportModulePF`) produces, from the *same* state `EWF` describes, a module with no problems either: where in the list a
+    signal stands does not enter any of the clauses, because names are unique and everything else looks signals up by name
+    (`lookup_append_comm`). -/
+theorem export_module_wf_ports_first (ctx : PRef → Option (List (String × Nat))) (h : HModule) (hw : EWF ctx h = true) :
+    ∃ p, RoundTrip.exportModulePF h = .ok p ∧ p.signals = sigListPF h ∧ p.instances.map (·.name) = h.instances.map (·.name) ∧
+      ∀ (pkg : Package) (earlier : List PModule), (∀ r, targetPorts pkg earlier r = ctx r) → moduleProblems pkg earlier p = [] := by
+  unfold EWF at hw
+  simp only [Bool.and_eq_true, decide_eq_true_eq] at hw
+  obtain ⟨⟨⟨⟨hnames, hwid⟩, hdir⟩, hinames⟩, hinst⟩ := hw
+  have hsn : (sigListPF h).map (·.1) = (h.ports ++ h.signals).map (·.name) := by
+    unfold sigListPF; rw [List.map_map]; rfl
+  have hperm : (h.ports ++ h.signals).Perm (h.signals ++ h.ports) := List.perm_append_comm
+  have hpnd : (h.ports.map (·.name)).Nodup := by
+    rw [List.map_append] at hnames
+    exact (List.nodup_append.mp hnames).2.1
+  have hinst' : (h.instances.all (instOK ctx (sigListPF h))) = true := by
+    rw [List.all_eq_true] at hinst ⊢
+    intro i hi
+    rw [← instOK_congr ctx (sigList h) (sigListPF h) (sigList_lookup_comm h hnames) i]
+    exact hinst i hi
+  obtain ⟨q, ps, hq, e1, e2, hall⟩ := export_core ctx h (sigListPF h)
+    (by rw [hsn]; exact ((hperm.map _).nodup_iff).mpr hnames)
+    (by
+      intro s hs
+      unfold sigListPF at hs
+      obtain ⟨x, hx, rfl⟩ := List.mem_map.mp hs
+      rw [List.all_eq_true] at hwid
+      simpa using hwid x (hperm.subset hx))
+    (by intro n hn; rw [hsn, List.map_append]; exact List.mem_append_left _ hn)
+    hpnd hdir hinames hinst'
+  exact ⟨⟨h.name, sigListPF h, q, ps⟩, by unfold RoundTrip.exportModulePF; rw [hq, e1]; rfl, rfl, e2, hall⟩
 
 theorem lookup_of_mem (ports : List (String × Nat)) (hnd : (ports.map (·.1)).Nodup) :
     ∀ (p : String) (w : Nat), (p, w) ∈ ports → Pkg.lookup p ports = some w := by
